@@ -1,7 +1,8 @@
 (* C13 — whitespace stripping acts as if the stripped text nodes were not in the source.
-   Statements only; proofs are in StripModel.v (decision) and StripTreeModel.v (observations). *)
+   Statements only; proofs are in StripModel.v (decision) and StripTreeModel.v (observations).
+   The tree statements carry a key (StripDefs.key): the parent's name and the inherited xml:space state. *)
 From Coq Require Import String List NArith Bool.
-Require Import XV.GenStrip XV.StripDefs XV.StripModel XV.StripTreeModel XV.StripObsDefs XV.StripObsModel XV.StripZipDefs XV.StripZipModel.
+Require Import XV.GenStrip XV.StripDefs XV.StripModel XV.StripTreeModel XV.StripObsDefs XV.StripObsModel XV.StripZipDefs XV.StripZipModel XV.StripXsDefs XV.StripXsModel.
 Open Scope list_scope.
 Import ListNotations.
 
@@ -13,7 +14,8 @@ Proof. repeat split; reflexivity. Qed.
 Print Assumptions census_complete.
 
 Theorem source_constants :
-  insert_before_equal = true /\ import_at_front = true /\ consults_xml_space = false /\ rec_priorities_ordered.
+  insert_before_equal = true /\ import_at_front = true /\ rec_priorities_ordered /\
+  consults_xml_space = true /\ rtf_nodes_exempt = true /\ cdata_is_text_for_strip = true.
 Proof. repeat split; reflexivity. Qed.
 Print Assumptions source_constants.
 
@@ -57,29 +59,34 @@ Proof. exact swap_disjoint_testers. Qed.
 Print Assumptions swap_of_disjoint_testers_is_harmless.
 
 (* ---- observations through the decision = observations of the physically stripped tree --------------- *)
-Theorem strip_equiv_children : forall st x,
-  children no_strip (remove_stripped st x) = map (remove_stripped st) (children st x).
+(* pk = the key the node x itself is looked at with (its parent's name and the xml:space state inherited by the
+   parent's children); the children of x are looked at, and removed, with kids_key pk x = child_key pk n a *)
+Theorem strip_equiv_children : forall st pk x,
+  children no_strip pk (remove_stripped st pk x) = map (remove_stripped st (kids_key pk x)) (children st pk x).
 Proof. exact rs_children. Qed.
 Print Assumptions strip_equiv_children.
 
-Theorem strip_equiv_descendants : forall st pn x, stripped st pn x = false ->
-  desc_or_self no_strip pn (remove_stripped st x) = map (remove_stripped st) (desc_or_self st pn x).
-Proof. exact rs_desc_or_self. Qed.
+(* every descendant is removed with its own key: desc_keyed lists the descendants with their keys
+   (map snd (desc_keyed st pk x) = desc_or_self st pk x), rs_keyed st (k, y) = remove_stripped st k y *)
+Theorem strip_equiv_descendants : forall st pk x, stripped st pk x = false ->
+  desc_or_self no_strip pk (remove_stripped st pk x) = map (rs_keyed st) (desc_keyed st pk x) /\
+  map snd (desc_keyed st pk x) = desc_or_self st pk x.
+Proof. intros st pk x H. split; [apply rs_desc_or_self; exact H|apply desc_keyed_nodes]. Qed.
 Print Assumptions strip_equiv_descendants.
 
-Theorem strip_equiv_count : forall st pn x, stripped st pn x = false ->
-  length (desc_or_self no_strip pn (remove_stripped st x)) = length (desc_or_self st pn x) /\
-  length (filter is_text (desc_or_self no_strip pn (remove_stripped st x))) = length (filter is_text (desc_or_self st pn x)).
+Theorem strip_equiv_count : forall st pk x, stripped st pk x = false ->
+  length (desc_or_self no_strip pk (remove_stripped st pk x)) = length (desc_or_self st pk x) /\
+  length (filter is_text (desc_or_self no_strip pk (remove_stripped st pk x))) = length (filter is_text (desc_or_self st pk x)).
 Proof. intros. split; [apply rs_desc_or_self_length | apply rs_desc_or_self_texts]; assumption. Qed.
 Print Assumptions strip_equiv_count.
 
-Theorem strip_equiv_string_value : forall st pn x, stripped st pn x = false ->
-  string_value no_strip pn (remove_stripped st x) = string_value st pn x.
+Theorem strip_equiv_string_value : forall st pk x, stripped st pk x = false ->
+  string_value no_strip pk (remove_stripped st pk x) = string_value st pk x.
 Proof. exact rs_string_value. Qed.
 Print Assumptions strip_equiv_string_value.
 
-Theorem strip_equiv_copy : forall st pn x, stripped st pn x = false ->
-  copy_events no_strip pn (remove_stripped st x) = copy_events st pn x.
+Theorem strip_equiv_copy : forall st pk x, stripped st pk x = false ->
+  copy_events no_strip pk (remove_stripped st pk x) = copy_events st pk x.
 Proof. exact rs_copy_events. Qed.
 Print Assumptions strip_equiv_copy.
 
@@ -104,17 +111,17 @@ Print Assumptions strip_equiv_observe.
 (* the observation language: any path from the document element, every result observed (string-value,
    copy, position among the siblings, number of siblings, children, descendants, text descendants) *)
 Theorem strip_equiv : forall st p n a ks,
-  run_obs st p (Elem n a ks) = run_obs no_strip p (remove_stripped st (Elem n a ks)).
+  run_obs st p (Elem n a ks) = run_obs no_strip p (remove_stripped st root_key (Elem n a ks)).
 Proof. exact strip_equiv_tree. Qed.
 Print Assumptions strip_equiv.
 
 (* the same with the decision computed from a stylesheet's declarations as the code computes it *)
 Theorem strip_equiv_sheet : forall s p n a ks,
-  run_obs (sheet_strip s) p (Elem n a ks) = run_obs (sheet_strip (Sheet [] [])) p (remove_stripped (sheet_strip s) (Elem n a ks)).
+  run_obs (sheet_strip s) p (Elem n a ks) = run_obs (sheet_strip (Sheet [] [])) p (remove_stripped (sheet_strip s) root_key (Elem n a ks)).
 Proof. intros. apply strip_equiv_tree. Qed.
 Print Assumptions strip_equiv_sheet.
 
-Theorem remove_stripped_idempotent : forall st x, remove_stripped st (remove_stripped st x) = remove_stripped st x.
+Theorem remove_stripped_idempotent : forall st pk x, remove_stripped st pk (remove_stripped st pk x) = remove_stripped st pk x.
 Proof. exact rs_idempotent. Qed.
 Print Assumptions remove_stripped_idempotent.
 
@@ -128,20 +135,20 @@ Print Assumptions strip_equiv_all_axes.
    preceding(-sibling) with node tests and positional predicates, from the document element; every result observed
    by string-value, copy, position, numbers of siblings and children, depth, numbers of following and preceding nodes *)
 Theorem strip_equiv_zipper : forall st p n a ks,
-  zrun st p (Elem n a ks) = zrun no_strip p (remove_stripped st (Elem n a ks)).
+  zrun st p (Elem n a ks) = zrun no_strip p (remove_stripped st root_key (Elem n a ks)).
 Proof. exact zstrip_equiv. Qed.
 Print Assumptions strip_equiv_zipper.
 
 (* ---- keys, xsl:number level="single", sort keys ------------------------------------------------------ *)
 (* key('k', v) for xsl:key match=<node test> use="." : the same nodes (up to the removal) *)
 Theorem strip_equiv_key_dot : forall st m v n a ks,
-  map (strip_ctx st) (key_dot st m v (Elem n a ks)) = key_dot no_strip m v (remove_stripped st (Elem n a ks)).
+  map (strip_ctx st) (key_dot st m v (Elem n a ks)) = key_dot no_strip m v (remove_stripped st root_key (Elem n a ks)).
 Proof. exact key_dot_equiv. Qed.
 Print Assumptions strip_equiv_key_dot.
 
 (* ... and for use="text()" (the key values are the string-values of the visible text children) *)
 Theorem strip_equiv_key_text : forall st m v n a ks,
-  map (strip_ctx st) (key_text st m v (Elem n a ks)) = key_text no_strip m v (remove_stripped st (Elem n a ks)).
+  map (strip_ctx st) (key_text st m v (Elem n a ks)) = key_text no_strip m v (remove_stripped st root_key (Elem n a ks)).
 Proof. exact key_text_equiv. Qed.
 Print Assumptions strip_equiv_key_text.
 
@@ -155,21 +162,29 @@ Theorem strip_equiv_sort_keys : forall st l, Forall (fun c => ctx_visible st c =
 Proof. exact sort_keys_equiv. Qed.
 Print Assumptions strip_equiv_sort_keys.
 
-(* ---- xml:space: the code ignores it (known finding K-C13-1) ------------------------------------------ *)
-(* full statement with the Recommendation's removal (which honours xml:space="preserve"): refuted *)
-Theorem xml_space_rule_refuted :
-  exists st x, string_value st (0, 0)%N x <> string_value no_strip (0, 0)%N (rec_remove st false x).
-Proof.
-  exists (fun _ => true), (Elem (0, 2)%N [((xml_ns, space_local), preserve_value)] [Text [32%N]]).
-  vm_compute. discriminate.
-Qed.
-Print Assumptions xml_space_rule_refuted.
+(* ---- xml:space (K-C13-1, repaired: the code honours it) ------------------------------------------------------ *)
+(* the removal of the model (decision on the key: parent name + inherited xml:space state) is the removal of
+   XSLT 1.0 3.4 — a FULL theorem, no guard *)
+Theorem xml_space_rule : forall st x, remove_stripped st root_key x = rec_remove st false x.
+Proof. intros. apply xml_space_rule_lemma. Qed.
+Print Assumptions xml_space_rule.
 
-(* exact guard: no element carries xml:space="preserve" *)
-Theorem xml_space_rule_partial : forall st x, no_xml_space_preserve x = true ->
-  rec_remove st false x = remove_stripped st x.
-Proof. exact rec_remove_without_xml_space. Qed.
-Print Assumptions xml_space_rule_partial.
+(* isXMLSpacePreserved (upward search from the parent: the first xml:space="preserve"/"default" decides) computes the
+   state inherited downwards *)
+Theorem xml_space_walk_is_inherited : forall chain, xml_space_walk chain = inherited chain.
+Proof. exact walk_is_inherited. Qed.
+Print Assumptions xml_space_walk_is_inherited.
+
+(* StylesheetRoot::shouldStripSourceNode after the fix = the model's `stripped` on (parent name, that state) *)
+Theorem strip_decision_after_fix : forall l pn chain d,
+  should_strip_fixed l pn chain (text_ws d) = stripped (fun n => should_strip l n true) (pn, xml_space_walk chain) (Text d).
+Proof. exact should_strip_fixed_key. Qed.
+Print Assumptions strip_decision_after_fix.
+
+(* the removal with the decision taken as the code takes it (upward search at every text node) is the Recommendation's *)
+Theorem xml_space_rule_code : forall st x, code_remove st [] x = rec_remove st false x.
+Proof. exact code_remove_is_rec. Qed.
+Print Assumptions xml_space_rule_code.
 
 (* ---- non-vacuity --------------------------------------------------------------------------------- *)
 Definition ex_strip_a := {| t_test := NtQ 0 1; t_strip := true |}.
@@ -198,7 +213,7 @@ Proof. split; reflexivity. Qed.
 
 Definition ex_doc : node :=
   Elem (0, 3)%N [] [Text [32]; Elem (0, 1)%N [] [Text [9]; Comment [107]; Text [10]]; Text [120]; Elem (2, 2)%N [] [Text [32; 32]]]%N.
-Example ex_removed : remove_stripped (sheet_strip ex_sheet) ex_doc =
+Example ex_removed : remove_stripped (sheet_strip ex_sheet) root_key ex_doc =
   Elem (0, 3)%N [] [Text [32]; Elem (0, 1)%N [] [Comment [107]]; Text [120]; Elem (2, 2)%N [] [Text [32; 32]]]%N.
 Proof. reflexivity. Qed.
 (* the second child of the document element, its following sibling text: something is really observed *)
@@ -208,6 +223,31 @@ Example ex_observation :
   /\ map o_child_count (run_obs (sheet_strip ex_sheet) [ {| s_axis := AxDescendantOrSelf; s_test := TAnyElem; s_pred := PAll |} ] ex_doc) = [4; 1; 1]
   /\ map o_child_count (run_obs no_strip [ {| s_axis := AxDescendantOrSelf; s_test := TAnyElem; s_pred := PAll |} ] ex_doc) = [4; 3; 1].
 Proof. repeat split; reflexivity. Qed.
+
+(* xml:space: <r xml:space="preserve">_<a xml:space="default">_<c>_</c></a><b>_</b></r> with strip-space elements="*"
+   (_ = " "; r a b c = local names 1 2 3 4): the whitespace text children of r and b (preserve in force) survive,
+   those of a and c (default in force) do not; the string-values through the predicate (original tree) agree
+   with those of the removed tree without predicate, and differ from those of the original tree without predicate *)
+Definition ex_xs_doc : node :=
+  Elem (0, 1)%N [((xml_ns, space_local), preserve_value)]
+    [ Text [32]; Elem (0, 2)%N [((xml_ns, space_local), default_value)] [Text [32]; Elem (0, 4)%N [] [Text [32]]];
+      Elem (0, 3)%N [] [Text [32]] ]%N.
+Definition ex_xs_all : list step := [ {| s_axis := AxDescendantOrSelf; s_test := TAnyElem; s_pred := PAll |} ].
+Example ex_xml_space :
+  remove_stripped (fun _ => true) root_key ex_xs_doc =
+    Elem (0, 1)%N [((xml_ns, space_local), preserve_value)]
+      [ Text [32]; Elem (0, 2)%N [((xml_ns, space_local), default_value)] [Elem (0, 4)%N [] []];
+        Elem (0, 3)%N [] [Text [32]] ]%N
+  /\ rec_remove (fun _ => true) false ex_xs_doc = remove_stripped (fun _ => true) root_key ex_xs_doc
+  /\ string_value (fun _ => true) root_key ex_xs_doc = [32; 32]%N
+  /\ string_value no_strip root_key (remove_stripped (fun _ => true) root_key ex_xs_doc) = [32; 32]%N
+  /\ string_value no_strip root_key ex_xs_doc = [32; 32; 32; 32]%N
+  /\ map o_string (run_obs (fun _ => true) ex_xs_all ex_xs_doc) = [[32; 32]; []; []; [32]]%N
+  /\ map o_string (run_obs no_strip ex_xs_all (remove_stripped (fun _ => true) root_key ex_xs_doc)) = [[32; 32]; []; []; [32]]%N
+  /\ map o_child_count (run_obs (fun _ => true) ex_xs_all ex_xs_doc) = [3; 1; 0; 1]
+  /\ map o_child_count (run_obs no_strip ex_xs_all ex_xs_doc) = [3; 2; 1; 1]
+  /\ ws_decisions (fun _ => true) root_key ex_xs_doc = [false; true; true; false].
+Proof. vm_compute. repeat split; reflexivity. Qed.
 
 (* ---- xsl:number level="any" ------------------------------------------------------------------------------- *)
 (* <d><b><b>WS</b></b><c/></d>, strip-space elements="b", current node c, count="node()" from="b" *)
